@@ -1,4 +1,5 @@
 #!/bin/bash
+# (the seeded inputs of both rounds are kept under /verif/seeded/<id>-<k>/{patch.diff,demo*.py}; pass /verif/seeded-style roots as <source root> if /tmp/seedout is gone)
 # usage: tools/confirm_seed.sh <Cxx> <k> [source root=/tmp/seedout] [index under /verif/seeded]   -- confirms one seeded change in a scratch worktree of /repo's HEAD and runs the property's check against it
 P=$1; K=$2; ROOT=${3:-/tmp/seedout}; OK=${4:-$K}; SRC=$ROOT/$P/$K; WT=/tmp/confirm/${P}_$OK; OUT=/verif/seeded/$P-$OK
 mkdir -p /tmp/confirm $OUT; rm -rf $WT; git -C /repo worktree prune
@@ -10,7 +11,7 @@ timeout 900 /venv/bin/python demo_seed_tmp.py > $OUT/demo_orig.log 2>&1; A=$?
 if git apply --check $SRC/patch.diff 2>/dev/null; then git apply $SRC/patch.diff; APPLIES=true; else APPLIES=false; fi
 if $APPLIES; then
   timeout 900 /venv/bin/python demo_seed_tmp.py > $OUT/demo_patched.log 2>&1; B=$?; rm -f demo_seed_tmp.py
-  if grep -q "broken: 0" $OUT/suite.log 2>/dev/null; then C=0; else /tmp/seed/run_suite.sh $WT > $OUT/suite.log 2>&1; C=$?; fi
+  if grep -q "broken: 0" $OUT/suite.log 2>/dev/null; then C=0; else /verif/tools/run_suite.sh $WT > $OUT/suite.log 2>&1; C=$?; fi
   (cd /verif && REPO=$WT timeout 1800 ./check $P > $OUT/check.log 2>&1); D=$?
 else B=-1; C=-1; D=-1; fi
 cd /; git -C /repo worktree remove --force $WT
